@@ -8,6 +8,11 @@ adds user-assigned input values on some elements.  A case is (program, inputs, n
 list, step size); step sizes run from 1 to (number of needed elements)+2.  A case may also start from a
 NON-EMPTY cache: `pre` lists elements evaluated directly before generate_actions, `mid` elements evaluated
 between generate_actions and execute_actions (the documented workflow changes the data in between).
+Values: a cells may be allowed to return None (`allow_none=True` on the cells, on its space or on the model) and then
+returns None for some of its elements (field `none` of the cell = a modulus m: None when the computed number is
+divisible by m; m = 1: always); user inputs of such cells may be None too.  A held None is a held value: None-valued
+elements occur as intermediates that a later block reads (with precedents of their own) and as targets, for every
+step size.  Nothing in the oracle or the model below distinguishes them.
 
 Correspondence (Lean model `MxModel.CalcSteps`, theorems in Props/C16.lean):
   * the action list `Model.generate_actions` returns, as exact per-step lists, against the Lean
@@ -75,29 +80,60 @@ def gen_program(rng, size_hint):
     return cells
 
 
-def render(i, cell):
+def add_nones(rng, cells, p_prog=0.45):
+    """some programs get cells that are allowed to return None and do so (separate random stream: the dependency
+    structure of the generated programs is the same with and without)"""
+    if rng.random() >= p_prog:
+        return cells
+    at = rng.choice(["cells", "cells", "space", "model"])
+    some = False
+    for c in cells:
+        if rng.random() < 0.5:
+            c["none"] = rng.choice([1, 2, 2, 3])
+            c["allow"] = at
+            some = True
+    if not some:
+        c = rng.choice(cells)
+        c["none"], c["allow"] = rng.choice([1, 2]), at
+    return cells
+
+
+def _nz(v):
+    """what a caller makes of a callee's None"""
+    return 5 if v is None else v
+
+
+def render(i, cell, nonecells=()):
     head = "def %s(%s):" % (cell["name"], "x" if cell["np"] else "")
     lines = [head, "    tick(%d%s)" % (i, ", x" if cell["np"] else ", None"), "    r = %d" % cell["base"]]
     if cell.get("fail") == "pre":
         lines.append("    r = r // 0")
     for c in cell["calls"]:
+        f = "nz(c%d(%s))" if c[1] in nonecells else "c%d(%s)"
         if c[0] == "same":
-            lines.append("    r = (r * 3 + c%d(x)) %% %d" % (c[1], MOD))
+            lines.append("    r = (r * 3 + %s) %% %d" % (f % (c[1], "x"), MOD))
         elif c[0] == "dec":
             lines.append("    if x > 0:")
-            lines.append("        r = (r * 3 + c%d(x - 1)) %% %d" % (c[1], MOD))
+            lines.append("        r = (r * 3 + %s) %% %d" % (f % (c[1], "x - 1"), MOD))
         elif c[0] == "const":
-            lines.append("    r = (r * 3 + c%d(%d)) %% %d" % (c[1], c[2], MOD))
+            lines.append("    r = (r * 3 + %s) %% %d" % (f % (c[1], c[2]), MOD))
         else:
-            lines.append("    r = (r * 3 + c%d()) %% %d" % (c[1], MOD))
+            lines.append("    r = (r * 3 + %s) %% %d" % (f % (c[1], ""), MOD))
     if cell.get("fail") == "post":
         lines.append("    r = r // 0")
+    if cell.get("none"):
+        lines.append("    if r %% %d == 0:" % cell["none"])
+        lines.append("        return None")
     lines.append("    return r")
     return "\n".join(lines)
 
 
 def node_name(n):
     return "c%d(%s)" % (n[0], "" if n[1] is None else n[1])
+
+
+def none_cells(cells):
+    return {i for i, c in enumerate(cells) if c.get("none")}
 
 
 class World:
@@ -110,11 +146,20 @@ class World:
             self.m = mx.new_model("M")
             self.s = self.m.new_space("S")
             self.m.tick = self._tick
+            self.m.nz = _nz
             self.cobj = []
+            nonecells = none_cells(cells)
             for i, c in enumerate(cells):
-                co = self.s.new_cells(c["name"], formula=render(i, c))
+                co = self.s.new_cells(c["name"], formula=render(i, c, nonecells))
                 if not c["cached"]:
                     co.is_cached = False
+                if c.get("none"):
+                    if c.get("allow") == "model":
+                        self.m.allow_none = True
+                    elif c.get("allow") == "space":
+                        self.s.allow_none = True
+                    else:
+                        co.allow_none = True
                 self.cobj.append(co)
             self.inputs = {}
             for n, v in inputs:
@@ -175,7 +220,21 @@ def universe(cells, xmax):
     return res
 
 
+_SURVEYS = {}
+
+
 def survey(cells, inputs, xmax):
+    """`survey_fresh`, remembered per (program, inputs, xmax): a pure function of them (a fresh model every time)"""
+    k = json.dumps([cells, [[list(n), v] for n, v in inputs], xmax], sort_keys=True)
+    if k not in _SURVEYS:
+        if len(_SURVEYS) > 64:
+            _SURVEYS.clear()
+        _SURVEYS[k] = survey_fresh(cells, inputs, xmax)
+    vals, preds, failed = _SURVEYS[k]
+    return dict(vals), {n: list(ps) for n, ps in preds.items()}, set(failed)
+
+
+def survey_fresh(cells, inputs, xmax):
     """Direct evaluation of every element in a fresh replica: values, predecessor lists (cached
     elements only, in call order), which elements fail."""
     w = World(cells, inputs)
@@ -410,6 +469,17 @@ def run_case(case, out, stats, model_jobs):
             stats["reads_user_input"] += 1
         if any(not c["cached"] for c in cells):
             stats["with_uncached"] += 1
+        nn = [n for n in ordered if vals.get(n, 0) is None]
+        if nn:
+            stats["none_valued_elements"] = stats.get("none_valued_elements", 0) + 1
+            if any(n in targets for n in nn):
+                stats["none_valued_target"] = stats.get("none_valued_target", 0) + 1
+            kept = {n for k, (a, ns) in enumerate(acts) if a == "paste" for n in ns
+                    if n not in targets and preds.get(n)}
+            if any(n in kept for n in nn):
+                stats["none_valued_kept_across_blocks"] = stats.get("none_valued_kept_across_blocks", 0) + 1
+        if any(v is None for _, v in inputs):
+            stats["none_valued_user_input"] = stats.get("none_valued_user_input", 0) + 1
         if pre_held:
             stats["start_with_calculated_values"] = stats.get("start_with_calculated_values", 0) + 1
             if pre_dep:
@@ -502,14 +572,20 @@ def flush_model(model_jobs, out):
 
 # ----------------------------------------------------------------------------- generation of cases
 
-def gen_config(rng, tier_big):
+def gen_config(rng, tier_big, nrng=None):
     cells = gen_program(rng, 7 if tier_big else 6)
+    if nrng is not None:
+        add_nones(nrng, cells)
     xmax = rng.randint(2, 4)
     uni = universe(cells, xmax)
     inputs = []
     if rng.random() < 0.55:
         for n in rng.sample(uni, min(len(uni), rng.randint(1, 3))):
             inputs.append([list(n), rng.randint(10, 99)])
+    if nrng is not None:
+        for e in inputs:          # a user may assign None where it is allowed
+            if cells[e[0][0]].get("none") and nrng.random() < 0.4:
+                e[1] = None
     return cells, xmax, uni, inputs
 
 
@@ -573,7 +649,7 @@ def run(ctx, out):
     n_cfg = ctx.n(90, 1000)
     for ci in range(n_cfg):
         rng = ctx.rng("cfg", ci)
-        cells, xmax, uni, inputs = gen_config(rng, ctx.tier == "thorough")
+        cells, xmax, uni, inputs = gen_config(rng, ctx.tier == "thorough", ctx.rng("none", ci))
         programs.add(json.dumps(cells, sort_keys=True))
         vals, preds, failed = survey(cells, [((n[0], n[1]), v) for n, v in inputs], xmax)
         inset = {(n[0], n[1]) for n, _ in inputs}
@@ -603,7 +679,7 @@ def run(ctx, out):
                     else:
                         run_case(case_of(cells, xmax, inputs, ts, size, pre=pick(), mid=pick()), out, stats, jobs)
                 if len(samples) < 3 and size == 2 and n_needed >= 4:
-                    samples.append({"formulas": [render(i, c) for i, c in enumerate(cells)],
+                    samples.append({"formulas": [render(i, c, none_cells(cells)) for i, c in enumerate(cells)],
                                     "inputs": inputs, "targets": [node_name(t) for t in ts], "step_size": size})
         # side stream: arbitrary action lists
         comp = [n for n in uni if n in preds and n not in inset]
@@ -646,15 +722,73 @@ def run(ctx, out):
             "nested_targets", "reads_user_input", "with_uncached", "blocks", "needed", "targets", "malformed",
             "random_action_lists", "random_lists_with_recomputation", "empty_target_lists",
             "start_with_calculated_values", "start_with_needed_values", "values_between_generate_and_execute",
-            "random_actions_skipped_failing") if k in stats},
+            "random_actions_skipped_failing", "none_valued_elements", "none_valued_target",
+            "none_valued_kept_across_blocks", "none_valued_user_input") if k in stats},
     })
     out.assumptions.append(
         "the cache model (held set, input marks, trace edges, clear-with-dependents, paste detaches) behind "
-        "run_correct is tied to modelx by the per-action correspondence only; values are not modelled – that the "
-        "targets hold the directly evaluated values is checked by the implementation-only oracle")
+        "run_correct is tied to modelx by the per-action correspondence only; the driver runs the value-free cache "
+        "(Props/C16.lean, value_agnostic_*: the valued cache over any value domain erases to it, so a held None is a "
+        "held value) – that the targets hold the directly evaluated values, None included, is checked by the "
+        "implementation-only oracle")
     out.assumptions.append(
         "runs also start from models that hold calculated values (before generate_actions and before "
         "execute_actions); step_size <= 0 is not generated (get_calcsteps does not terminate for it)")
+
+
+def ladder(height, width, none_at, mods):
+    """a family in the shape of the documented use: `height` cells with one parameter, cells k reads cells k-1 at
+    the same argument and itself at the argument before; the cells in `none_at` are allowed to return None and do
+    (modulus from `mods`)"""
+    cells = []
+    for k in range(height):
+        calls = ([["same", k - 1]] if k else []) + [["dec", k]]
+        c = {"name": "c%d" % k, "np": 1, "cached": True, "base": k + 1, "calls": calls, "fail": False}
+        if k in none_at:
+            c["none"], c["allow"] = mods[k % len(mods)], "cells"
+        cells.append(c)
+    return cells, width - 1
+
+
+def search(ctx, out, extra):
+    """A theorem or the correspondence no longer stands and no generated case failed: look for an input on which
+    modelx itself breaks the statement.  Small scope, exhaustively: ladders of 2-3 cells in which every subset of
+    the cells returns None (always / for every second value), every target list of one or two elements, EVERY step
+    size 1..needed+1; then generated programs in which every cells may return None, every step size.  Judged by the
+    oracle of `run_case` alone (the model's jobs are dropped)."""
+    stats = new_stats()
+
+    def found():
+        return any(f.get("key") is None for f in extra.failures)
+    for height in (2, 3):
+        for mask in range(1, 2 ** height):
+            none_at = [k for k in range(height) if mask >> k & 1]
+            for mods in ([1], [2], [2, 1]):
+                cells, xmax = ladder(height, 3, none_at, mods)
+                uni = universe(cells, xmax)
+                vals, preds, failed = survey(cells, [], xmax)
+                tops = [n for n in uni if n[1] == xmax] + [n for n in uni if vals.get(n, 0) is None][:3]
+                tlists = [[t] for t in tops] + [[tops[-1], u] for u in tops[:-1]]
+                for ts in tlists:
+                    needed = len(closure(preds, ts, set()))
+                    for size in range(1, needed + 2):
+                        run_case(case_of(cells, xmax, [], ts, size), extra, stats, [])
+                        if found():
+                            return
+    for ci in range(ctx.n(60, 600)):
+        rng = ctx.rng("search", ci)
+        cells, xmax, uni, inputs = gen_config(rng, False)
+        add_nones(rng, cells, p_prog=1.0)
+        vals, preds, failed = survey(cells, [((n[0], n[1]), v) for n, v in inputs], xmax)
+        inset = {(n[0], n[1]) for n, _ in inputs}
+        for ti in range(2):
+            ts = gen_targets(rng, uni, preds, inset)
+            if ts is None or any(t in failed for t in ts):
+                break
+            for size in range(1, len(closure(preds, ts, inset)) + 2):
+                run_case(case_of(cells, xmax, inputs, ts, size), extra, stats, [])
+                if found():
+                    return
 
 
 def replay_case(c, out, stats, jobs):
